@@ -1,6 +1,8 @@
 (* C15  Source ranges nest and re-parse; errors point at the right line and column.
    Property theorems only; every proof is `exact` a lemma of Proofs/. *)
-From Formula Require Import Lex.LineMap Syn.Parser Syn.Grammar Proofs.LineMapFacts Proofs.SourceFacts.
+From Formula Require Import Lex.LineMap Syn.Parser Syn.Grammar Proofs.LineMapFacts Proofs.SourceFacts Proofs.ReparseFacts.
+From Coq Require Import List.
+Import ListNotations.
 
 (* every node's range lies within the text and contains its children's ranges in source order
    (`nested`), for accepted inputs ... *)
@@ -31,6 +33,25 @@ Theorem C15_error_position_correct : forall text d ds e, parse_source text = Rej
   line_col text (dstart d) = Some (direct_count text (dstart d)).
 Proof. exact error_position_correct. Qed.
 
+(* every expression node re-parses on its own (at the level of tokens): the slice of the token stream that a node
+   of an accepted tree covers, closed by an end-of-file token, parses to exactly that node's subtree.  `subexpr y x`:
+   y is x or a node below it (operands, branches, elements, arguments, targets, callee).  That the text of the
+   node scans to that slice is checked on the implementation (oracle of the `ranges` suite), not proved. *)
+Theorem C15_subtree_reparses : forall text e,
+  parse_source text = Accepted e ->
+  forall y, subexpr y (strip e) ->
+  exists toks pre mid post,
+    scan_all text = Some toks /\ toks = pre ++ mid ++ post /\ Forall2 tok_matches (yield y) mid /\
+    (forall eof, tok_matches (punct KEOF) eof -> tdiags eof = [] ->
+       exists e', parse_tokens (parse_fuel (length (mid ++ [eof]))) (mid ++ [eof]) = Accepted e' /\ strip e' = y).
+Proof. exact accepted_subtree_reparses. Qed.
+
+Theorem C15_accepted_tokens_carry_no_diagnostic : forall text toks e,
+  scan_all text = Some toks -> parse_source text = Accepted e -> Forall (fun t => tdiags t = []) toks.
+Proof. exact source_accepted_clean_tokens. Qed.
+
+Print Assumptions C15_subtree_reparses.
+Print Assumptions C15_accepted_tokens_carry_no_diagnostic.
 Print Assumptions C15_accepted_ranges_nest.
 Print Assumptions C15_rejected_ranges_nest.
 Print Assumptions C15_diagnostics_within_text.
